@@ -95,8 +95,8 @@ for _pid in ("C09", "C10", "C17"):
     _t = TABLE[_pid]
     TABLE[_pid] = (_t[0], _t[1] + FOOT, _t[2], _t[3])
 
-METH = (" METHOD BODIES FROM THE SOURCE: the per-rotor kernel wiring of Wigner.D, Wigner.sYlm and the Horner branches of Wigner.evaluate and Wigner.rotate is itself re-translated from the method text on every run (vlib/py2lean_kern.generate_methods -> Gen/MethodKern.lean: the calls in the order and with the arguments the text gives them, every read-only argument being the current content of the workspace array at the call, shapes of the power arrays read off Wigner._split_workspace), executed at Float on one poisoned memory and compared bit for bit with the real method (corr batches Wigner.*-generated-method-body), and PROVED equal to the chains the capstone theorems are about whenever the workspace parts are distinct arrays (GenMethod.D_rotor_eq / sYlm_rotor_eq / evaluate_rotor_eq / rotate_rotor_eq, using the kernels' footprints), so that GenMethod.D_rotor_doc, sYlm_rotor_doc, evaluate_rotor_doc, rotate_rotor_doc state the documented functions for the generated method bodies; and each body writes only its workspace parts and its output (GenMethod.*_rotor_only). ")
-for _pid in ("C01", "C02", "C03", "C04", "C07", "C09", "C10"):
+METH = (" METHOD BODIES FROM THE SOURCE: the per-rotor kernel wiring of Wigner.D, Wigner.sYlm and the Horner branches of Wigner.evaluate and Wigner.rotate is itself re-translated from the method text on every run (vlib/py2lean_kern.generate_methods -> Gen/MethodKern.lean: the calls in the order and with the arguments the text gives them, every read-only argument being the current content of the workspace array at the call, shapes of the power arrays read off Wigner._split_workspace), executed at Float on one poisoned memory and compared bit for bit with the real method (corr batches Wigner.*-generated-method-body), and PROVED equal to the chains the capstone theorems are about whenever the workspace parts are distinct arrays (GenMethod.D_rotor_eq / sYlm_rotor_eq / evaluate_rotor_eq / rotate_rotor_eq, using the kernels' footprints), so that GenMethod.D_rotor_doc, sYlm_rotor_doc, evaluate_rotor_doc, rotate_rotor_doc state the documented functions for the generated method bodies; and each body writes only its workspace parts and its output (GenMethod.*_rotor_only); the value a body writes does not depend on the memory it starts from (GenMethod.*_rotor_pure, every arithmetic); and the generated `for i_R in range(quaternions.shape[0])` loops leave in row/column i exactly what the single-rotor body writes for rotor i on any memory (GenMethod.D_loop_row, sYlm_loop_row, evaluate_loop_col; the D loop is also run against the real vectorised call bit for bit, corr batch Wigner.D-generated-loop). ")
+for _pid in ("C01", "C02", "C03", "C04", "C07", "C09", "C10", "C17"):
     _t = TABLE[_pid]
     TABLE[_pid] = (_t[0], _t[1] + METH, _t[2], _t[3])
 
